@@ -135,6 +135,7 @@ func (h *HTTP) RoundTrip(req *http.Request) (*http.Response, error) {
 	if h.LoseIf != nil && h.LoseIf(req) {
 		rec.Fault = HTTPReqLost
 		rec.ReqBody = body
+		rec.ReqHeader = headerString(req.Header)
 		return finish(nil, errors.New("sim: connection reset before the request was sent"))
 	}
 	if h.F.Hit(HTTPReqLost, site) {
